@@ -160,13 +160,16 @@ func (rt *runtime) cmplEvaluateNodeDoWhileStatement(node *nodeDoWhileStatement) 
 	result := emptyValue
 resultBreak:
 	for {
+		// The value of this evaluation of the body alone: an abrupt completion that is not
+		// for this loop leaves with it, not with the value of earlier iterations (12.6.1).
+		pass := emptyValue
 		for _, node := range node.body {
 			value := rt.cmplEvaluateNodeStatement(node)
 			switch value.kind {
 			case valueResult:
 				switch value.evaluateBreakContinue(labels) {
 				case resultReturn:
-					return value.carrying(result)
+					return value.carrying(pass)
 				case resultBreak:
 					result = value.carried(result)
 					break resultBreak
@@ -176,7 +179,7 @@ resultBreak:
 				}
 			case valueEmpty:
 			default:
-				result = value
+				pass, result = value, value
 			}
 		}
 	resultContinue:
@@ -245,16 +248,14 @@ func (rt *runtime) cmplEvaluateNodeForInStatement(node *nodeForInStatement) Valu
 				into = toValue(getIdentifierReference(rt, rt.scope.lexical, identifier, false, -1))
 			}
 			rt.putValue(into.reference(), stringValue(name))
+			pass := emptyValue // the value of this evaluation of the body alone (12.6.4)
 			for _, node := range body {
 				value := rt.cmplEvaluateNodeStatement(node)
 				switch value.kind {
 				case valueResult:
 					switch value.evaluateBreakContinue(labels) {
 					case resultReturn:
-						if !enumerateValue.isEmpty() {
-							result = enumerateValue
-						}
-						result = value.carrying(result)
+						result = value.carrying(pass)
 						obj = nil
 						return false
 					case resultBreak:
@@ -270,7 +271,7 @@ func (rt *runtime) cmplEvaluateNodeForInStatement(node *nodeForInStatement) Valu
 					}
 				case valueEmpty:
 				default:
-					enumerateValue = value
+					pass, enumerateValue = value, value
 				}
 			}
 			return true
@@ -324,13 +325,14 @@ resultBreak:
 			}
 		}
 
+		pass := emptyValue // the value of this evaluation of the body alone (12.6.3)
 		for _, node := range body {
 			value := rt.cmplEvaluateNodeStatement(node)
 			switch value.kind {
 			case valueResult:
 				switch value.evaluateBreakContinue(labels) {
 				case resultReturn:
-					return value.carrying(result)
+					return value.carrying(pass)
 				case resultBreak:
 					result = value.carried(result)
 					break resultBreak
@@ -340,7 +342,7 @@ resultBreak:
 				}
 			case valueEmpty:
 			default:
-				result = value
+				pass, result = value, value
 			}
 		}
 	resultContinue:
@@ -355,6 +357,8 @@ resultBreak:
 func (rt *runtime) cmplEvaluateNodeIfStatement(node *nodeIfStatement) Value {
 	test := rt.cmplEvaluateNodeExpression(node.test)
 	testValue := test.resolve()
+	// Labels wait for the statement they label only (12.12): the branches start with none.
+	rt.labels = nil
 	if testValue.bool() {
 		return rt.cmplEvaluateNodeStatement(node.consequent)
 	} else if node.alternate != nil {
@@ -460,13 +464,14 @@ resultBreakContinue:
 			// Stahp: while (false) ...
 			break
 		}
+		pass := emptyValue // the value of this evaluation of the body alone (12.6.2)
 		for _, node := range body {
 			value := rt.cmplEvaluateNodeStatement(node)
 			switch value.kind {
 			case valueResult:
 				switch value.evaluateBreakContinue(labels) {
 				case resultReturn:
-					return value.carrying(result)
+					return value.carrying(pass)
 				case resultBreak:
 					result = value.carried(result)
 					break resultBreakContinue
@@ -476,7 +481,7 @@ resultBreakContinue:
 				}
 			case valueEmpty:
 			default:
-				result = value
+				pass, result = value, value
 			}
 		}
 	}
@@ -492,5 +497,6 @@ func (rt *runtime) cmplEvaluateNodeWithStatement(node *nodeWithStatement) Value 
 		rt.scope.lexical = outer
 	}()
 
+	rt.labels = nil // labels wait for the statement they label only (12.12), not for the body
 	return rt.cmplEvaluateNodeStatement(node.body)
 }
